@@ -113,7 +113,9 @@ def check_property(prop, tier="quick", seed=0, update_lock=False):
                 checker_errors.append("axiom %s: %s" % (ax.name, traceback.format_exc()[-800:]))
 
     obs = [o for o, _ in all_obs]
+    t_vc = time.time() - t0
     results = discharge(obs, timeout_ms=timeout)
+    t_solve = time.time() - t0 - t_vc
 
     # vacuity: path conditions (preconditions + invariants + library assumptions) must not be contradictory
     from .ctx import Obligation
@@ -231,6 +233,8 @@ def check_property(prop, tier="quick", seed=0, update_lock=False):
 
     write_evidence(prop, tier, seed, reg, meta, fun_results, all_obs, results, known_hits, violations, undecided,
                    undecided_obs, checker_errors, rt, time.time() - t0, own, lemmas, axioms, vacuity, bounded_only)
+    if os.environ.get("PYVC_TIMING"):
+        print("timing: vcgen %.1fs solve %.1fs total %.1fs" % (t_vc, t_solve, time.time() - t0))
     for l in lines:
         print(l)
     n_ok = sum(1 for r in results if r["verdict"] == "proved")
